@@ -127,6 +127,9 @@ def cases(draw):
         "flag": draw(st.booleans()),
         "cls": draw(st.sampled_from(["str", "str", "file"])),
         "lead_nl": draw(st.booleans()),
+        # a long comment in the head pushes the meta element far into the
+        # document
+        "pad": draw(st.sampled_from([0, 0, 0, 900, 1100, 5000])),
     }
 
 
@@ -136,6 +139,8 @@ def document(case):
     if case["decl"]:
         parts.append(case["decl"] + nl)
     parts.append("<html><head>")
+    if case.get("pad"):
+        parts.append("<!-- " + "licence text " * (case["pad"] // 13) + "-->")
     if case["meta"]:
         parts.append(case["meta"])
     parts.append("<title>t</title></head>" + nl + "<body>")
